@@ -42,6 +42,7 @@ type c20In struct {
 	LatencyMS []int     `json:"latency_ms,omitempty"`
 	FailAt    int       `json:"fail_at"` // position of an injected op-error on the loader's I/O (-1 none)
 	Base      string    `json:"base"`
+	Second    bool      `json:"second,omitempty"` // files with an odd index live under "second/" and are loaded by a second Load into the same store
 }
 
 var c20Alphabet = []string{"a", "Z", " ", "\"", "\\", "\n", "\t", "\u0001", "é", "日", "/", "{", "}", ":", ",", "'", "\\n", "\\\"", "u00e9"}
@@ -111,6 +112,9 @@ func c20Gen(r *Rand, tier string) interface{} {
 	}
 	if r.Chance(1, 6) {
 		in.FailAt = r.Intn(2 + 2*nf)
+	}
+	if in.FailAt < 0 && nf >= 2 && r.Chance(1, 4) {
+		in.Second = true
 	}
 	return in
 }
@@ -192,7 +196,12 @@ func c20Run(inI interface{}, env *Env) *Failure {
 				panic(harnessTrouble{err.Error()})
 			}
 		}
-		for _, f := range in.Files {
+		if in.Second {
+			if err := mem.MkdirAll("second", filesystem.DefaultUnixDirMode); err != nil {
+				panic(harnessTrouble{err.Error()})
+			}
+		}
+		for fi, f := range in.Files {
 			var data []byte
 			if f.Emitter {
 				s, err := plainmap.PlainStringMapToJSON(f.Values)
@@ -211,7 +220,11 @@ func c20Run(inI interface{}, env *Env) *Failure {
 				invalid++
 				continue
 			}
-			if err := mem.WriteFile(root+f.Path, data, filesystem.DefaultUnixFileMode); err != nil {
+			froot := root
+			if in.Second && fi%2 == 1 {
+				froot = "second/"
+			}
+			if err := mem.WriteFile(froot+f.Path, data, filesystem.DefaultUnixFileMode); err != nil {
 				panic(harnessTrouble{err.Error()})
 			}
 			for k, v := range std {
@@ -239,6 +252,11 @@ func c20Run(inI interface{}, env *Env) *Failure {
 		}
 		i18 := i18mem.NewI18N()
 		loadErr = fsi18loader.Load(NewFaultFS(mem, st), in.Base, i18, nil)
+		if in.Second && loadErr == nil {
+			// the store is filled by several loads (one per module directory, say): what the
+			// first one loaded must survive the second
+			loadErr = fsi18loader.Load(NewFaultFS(mem, st), "second/", i18, nil)
+		}
 		for _, k := range sortedNamesS(expected) {
 			v, err := i18.Translate(k)
 			if err != nil {
